@@ -39,6 +39,11 @@ Definition vhist (o : option (list hobs)) : val :=
 Definition hstep_okb (s : hstep) : bool :=
   match s with HQ _ _ i => in_i32b i | HSet _ _ w => word_okb w end.
 
+(** the property speaks about positions inside the bitmap (for the 128-bit flavour: below 2^31 - 64, where [i + 64] is still
+    an int32); elsewhere the specification is silent and only model = implementation is compared (a panic, as of now) *)
+Definition spec_any_ok (for128 : bool) (ws : list Z) (i : Z) (obs : val) : bool :=
+  if pos_in ws i && (negb for128 || (i <? 2^31 - 64)) then val_eqb (vq (spec_query ws i)) obs else true.
+
 Definition ops_C01_wide : list opdef := [
   (* any int32 position, inside or outside the bitmap, through the int32-faithful model *)
   {| op_name := "bitmap.Rank/any";
@@ -47,11 +52,11 @@ Definition ops_C01_wide : list opdef := [
            | Some ws, Some f, Some i => if in_i32b i then vq (query32 f ws i) else VBad
            | _, _, _ => VBad end
        | _ => VBad end;
-     op_spec := fun_spec (fun a => match a with
+     op_spec := fun a obs => match a with
        | [ws; f; i] => match as_zs ws, as_flavour f, as_z i with
-           | Some ws, Some f, Some i => vq (spec_query32 (is128 f) ws i)
-           | _, _, _ => VBad end
-       | _ => VBad end) |};
+           | Some ws, Some f, Some i => spec_any_ok (is128 f) ws i obs
+           | _, _, _ => false end
+       | _ => false end |};
   (* the three flavours at two positions i <= j plus the trailing total: judged by the laws alone *)
   {| op_name := "bitmap.Rank/laws";
      op_run := fun a => match a with
@@ -130,11 +135,11 @@ Definition ops_C01_wide : list opdef := [
            | Some runs, Some f, Some i => if in_i32b i then vq (query32 f (expand_rle runs) i) else VBad
            | _, _, _ => VBad end
        | _ => VBad end;
-     op_spec := fun_spec (fun a => match a with
+     op_spec := fun a obs => match a with
        | [runs; f; i] => match as_pairs runs, as_flavour f, as_z i with
-           | Some runs, Some f, Some i => vq (spec_query32 (is128 f) (expand_rle runs) i)
-           | _, _, _ => VBad end
-       | _ => VBad end) |};
+           | Some runs, Some f, Some i => spec_any_ok (is128 f) (expand_rle runs) i obs
+           | _, _, _ => false end
+       | _ => false end |};
   (* histories: several bitmaps with held indexes, queried in any order, words overwritten in place *)
   {| op_name := "bitmap.Rank/history";
      op_run := fun a => match a with
